@@ -11,6 +11,7 @@ package c13
 import (
 	"encoding/json"
 	"fmt"
+	"hash/fnv"
 	"math/rand"
 	"net/netip"
 	"os"
@@ -32,6 +33,8 @@ type mCfg struct {
 	Cap     int            `json:"cap"`
 	Enabled bool           `json:"enabled"`
 	Parent  map[string]int `json:"parent"`
+	minD    time.Duration  // explicit durations (TestCeiling only)
+	maxD    time.Duration
 }
 
 type mEnt struct {
@@ -91,12 +94,14 @@ type mInput struct {
 	Paths    []mPath `json:"paths"`
 	TraceOut string  `json:"traceOut"`
 	Random   int     `json:"random"` // extra driver-generated workloads for the trace direction
-	QNames   []int   `json:"qnames"`
-	ZNames   []int   `json:"znames"`
-	Types    []int   `json:"types"`
-	Classes  []int   `json:"classes"`
-	CDs      []int   `json:"cds"`
-	Scopes   []int   `json:"scopes"`
+	// ShapeBase offsets the shape rotation (a --replay run re-creates the shape of the failing case)
+	ShapeBase int   `json:"shapeBase"`
+	QNames    []int `json:"qnames"`
+	ZNames    []int `json:"znames"`
+	Types     []int `json:"types"`
+	Classes   []int `json:"classes"`
+	CDs       []int `json:"cds"`
+	Scopes    []int `json:"scopes"`
 }
 
 func (s mStep) String() string {
@@ -108,10 +113,18 @@ func (s mStep) String() string {
 		Cause string `json:"cause,omitempty"`
 		D     int    `json:"d,omitempty"`
 		O     string `json:"o,omitempty"`
-		Z     int    `json:"z,omitempty"`
+		Z     *int   `json:"z,omitempty"`
 		R     int    `json:"r,omitempty"`
-	}{s.Op, s.K, s.ZK, s.P, s.Cause, s.D, s.O, s.Z, s.R})
+	}{s.Op, s.K, s.ZK, s.P, s.Cause, s.D, s.O, zptr(s), s.R})
 	return string(b)
+}
+
+func zptr(s mStep) *int {
+	if s.Op == "Request" || s.Op == "Finish" {
+		z := s.Z
+		return &z
+	}
+	return nil
 }
 
 // ---------------------------------------------------------------- key space
@@ -676,6 +689,24 @@ func (t *traceWriter) close() {
 }
 
 // ---------------------------------------------------------------- misc
+
+// pathRand is the per-path random source: every choice a driver makes for one
+// path (spelling, audience spelling, wire/message birth, cause variants)
+// depends only on VERIF_SEED and the path id, so a single path replays alike.
+func pathRand(id string) *rand.Rand {
+	h := fnv.New64a()
+	h.Write([]byte(id))
+	return rand.New(rand.NewSource(vh.Seed()*1_000_003 + int64(h.Sum64()>>1)))
+}
+
+func shapeIndex(name string) int {
+	for i, s := range shapeDefs {
+		if s.name == name {
+			return i
+		}
+	}
+	return 0
+}
 
 func violate(res *vh.Result, pred, what string, replay any) {
 	res.Violate("c13/"+pred, pred+": "+what, replay)
